@@ -251,6 +251,82 @@ func propC07(r *kernel.Run) {
 			}
 		}
 		opts, od, _ := drawHonestOpts()
+		if tp.Draw(3) == 0 {
+			// man in the middle after the fetch: the first connection of this Dial (the credential fetch) reaches the real
+			// server, every later one (the authenticated handshakes of the same call) reaches a rogue with foreign roots
+			rl := w.Net.Listen("mitm:9202")
+			r.Sched.Go("mitm", "rogue", func() {
+				for {
+					c, err := rl.Accept()
+					if err != nil {
+						return
+					}
+					cfg := &tls.Config{MinVersion: tls.VersionTLS13,
+						GetConfigForClient: func(h *tls.ClientHelloInfo) (*tls.Config, error) {
+							var nonce []byte
+							if req := authRequestFromALPN(h.SupportedProtos); req != nil {
+								nonce = req.Nonce
+							}
+							_, caKey, _ := ed25519.GenerateKey(rand.Reader)
+							caDer := mintLeaf(nil, caKey, caKey.Public().(ed25519.PublicKey), []byte("ca"), "rogue-ca", x509.ExtKeyUsageServerAuth, time.Now().Add(-time.Hour), time.Now().Add(time.Hour))
+							ca, _ := x509.ParseCertificate(caDer)
+							_, lk, _ := ed25519.GenerateKey(rand.Reader)
+							names := []string{"rogue"}
+							if tp.Draw(2) == 0 && nonce != nil {
+								names = append(names, base64.RawStdEncoding.EncodeToString(nonce))
+							}
+							leaf := mintLeafNames(ca, caKey, lk.Public().(ed25519.PublicKey), names)
+							out := &tls.Config{MinVersion: tls.VersionTLS13, Certificates: []tls.Certificate{{Certificate: [][]byte{leaf, caDer}, PrivateKey: lk}}, NextProtos: h.SupportedProtos[:1]}
+							if tp.Draw(2) == 0 {
+								// ask for a client certificate and advertise the real roots' names (public information)
+								out.ClientAuth = tls.RequestClientCert
+								out.ClientCAs = x509.NewCertPool()
+								if roots, err := types.LoadRootCertificates(contextBG, srv.Inner, srv.Opts()...); err == nil {
+									for _, rc := range []*types.RootCertificate{roots.Current, roots.Next} {
+										if c, err := x509.ParseCertificate(rc.CertificateDer); err == nil {
+											out.ClientCAs.AddCert(c)
+										}
+									}
+								}
+							}
+							return out, nil
+						}}
+					tls.Server(c, cfg).HandshakeContext(context.Background())
+				}
+			})
+			nconn := 0
+			real := w.Addr
+			net0 := w.Net
+			protocol.SimDial = func(ctx context.Context, addr string) (net.Conn, error) {
+				nconn++
+				target := "mitm:9202"
+				if nconn == 1 {
+					target = real
+				}
+				c, err := net0.Dial(target, r.Sched.Name())
+				if err != nil {
+					return nil, err
+				}
+				c.Capture = true
+				return c, nil
+			}
+			res, acc := dial(addr, append(dopts, opts...)...)
+			desc := fmt.Sprintf("flow=%s mitm-after-fetch %s", flow, od)
+			r.Count("fault.rogue_server.mitm_after_fetch", 1)
+			r.Count("cases", 1)
+			if res.err == nil {
+				st, _ := types.LoadNodeCredentials(contextBG, nodeW.Inner, nodeenrollment.CurrentId, nodeW.Opts()...)
+				if st != nil {
+					checkDialedPeer(r, desc, res.conn, st, res.hello)
+				}
+				r.Violate("dial-peer", "connected-to-rogue/mitm-after-fetch", "Dial fetched credentials from its server and then completed the authenticated handshake with a foreign-root peer (%s)", desc)
+			}
+			finish(res, acc)
+			rl.Close()
+			hist = append(hist, desc+" -> "+shortErr(res.err))
+			r.FP("pending-mitm", flow, od, res.err == nil)
+			break
+		}
 		res, acc := dial(addr, append(dopts, opts...)...)
 		desc := fmt.Sprintf("flow=%s addr=%q %s", flow, addr, od)
 		r.Count("ops.first_dial_after_authorization", 1)
@@ -273,6 +349,7 @@ func propC07(r *kernel.Run) {
 		rl := w.Net.Listen("rogue:9202")
 		kind := Pick2(tp, "foreign-roots", "stale-nonce", "nonce-omitted", "client-auth-leaf", "preference-ignored", "legit-relay")
 		r.Count("fault.rogue_server."+kind, 1)
+		noClientCert := tp.Draw(3) == 0
 		// the rogue answers every connection it gets
 		r.Sched.Go("rogue", "rogue", func() {
 			for {
@@ -331,7 +408,11 @@ func propC07(r *kernel.Run) {
 								}
 							}
 						}
-						return &tls.Config{MinVersion: tls.VersionTLS13, ClientAuth: tls.RequestClientCert, ClientCAs: pool, Certificates: []tls.Certificate{cert}, NextProtos: h.SupportedProtos[:1]}, nil
+						out := &tls.Config{MinVersion: tls.VersionTLS13, ClientAuth: tls.RequestClientCert, ClientCAs: pool, Certificates: []tls.Certificate{cert}, NextProtos: h.SupportedProtos[:1]}
+						if noClientCert {
+							out.ClientAuth, out.ClientCAs = tls.NoClientCert, nil
+						}
+						return out, nil
 					}}
 				tc := tls.Server(c, cfg)
 				tc.HandshakeContext(context.Background())
